@@ -164,7 +164,8 @@ def run(ctx):
     rng = ctx.rng
     if ctx.shard == 0:
         effect_case(ctx)
-    dicts = [d for d in directed.dictionaries() if U.closed(d) and not any(isinstance(d.get(k), dict) for k in ("A", "B", "C"))]
+    dicts = [d for d in directed.dictionaries() if U.closed(d) and not any(isinstance(d.get(k), dict) for k in ("A", "B", "C"))
+             and not any(isinstance(v2, dict) for v in d.values() if isinstance(v, dict) for v2 in v.values())]
     for i, p in enumerate(directed.programs()):
         if i % ctx.shards != ctx.shard:
             continue
